@@ -160,7 +160,7 @@ func (e *Environment) SaveGlobals(to io.Writer, maxValueLen int) (int, error) {
 		v := e.store[k]
 		if v.Type() == FUNC {
 			f := v.(Function)
-			if f.Name != nil {
+			if f.Name != nil && f.Name.Literal() == k {
 				// Named function inspect is ready for definition, eg func y(a,b){a+b}.
 				_, err := fmt.Fprintf(to, "%s\n", f.Inspect())
 				if err != nil {
@@ -171,6 +171,8 @@ func (e *Environment) SaveGlobals(to io.Writer, maxValueLen int) (int, error) {
 			}
 			// Anonymous function are like other variables.
 			//   x=func(a,b){a+b}
+			// and so is a named function bound to another name (h=g is saved as h=func g(a,b){a+b}, not as a second
+			// definition of g, which lost h).
 			// fallthrough.
 		}
 		val := v.Inspect()
